@@ -23,6 +23,7 @@ import (
 	"os"
 	"path/filepath"
 	"runtime"
+	"sort"
 	"strconv"
 	"strings"
 	"time"
@@ -138,6 +139,27 @@ func c01Classify(p c01Pair) string {
 		return "G01-1"
 	}
 	return ""
+}
+
+// Oracle failures are handed to the context smallest program first (it keeps five per class; the first is the replay).
+var c01Fails []struct {
+	size int
+	f    vh.Failure
+}
+
+func c01Fail(size int, f vh.Failure) {
+	c01Fails = append(c01Fails, struct {
+		size int
+		f    vh.Failure
+	}{size, f})
+}
+
+func c01FlushFails(c *vh.Ctx) {
+	sort.SliceStable(c01Fails, func(i, j int) bool { return c01Fails[i].size < c01Fails[j].size })
+	for _, x := range c01Fails {
+		c.Fail(x.f)
+	}
+	c01Fails = nil
 }
 
 func runC01(c *vh.Ctx) {
@@ -269,8 +291,14 @@ func runC01(c *vh.Ctx) {
 			if p.Family == "wide" {
 				p, o.a, o.b = wideMinimise(p, o.a, o.b)
 			}
-			c.Fail(vh.Failure{Kind: "oracle", What: "two spellings of the same program behave differently (" + p.Family + ")",
-				Finding: c01Classify(p), Case: p, Got: o.b, Want: o.a})
+			what := "two spellings of the same program behave differently (" + p.Family + ")"
+			if p.OutB != "" {
+				if pb, err := c01Parse(p.B); err == nil && c01Canon(c01RunProg(pb, p.Input, p.Vars...)) == o.a {
+					what = "what reaches Config.Output depends on the kind of writer: program_b with config_output_b " + p.OutB +
+						" (never flushed by the caller) differs from program_a with a bytes.Buffer; with a bytes.Buffer program_b agrees (" + p.Family + ")"
+				}
+			}
+			c01Fail(len(p.A)+len(p.B), vh.Failure{Kind: "oracle", What: what, Finding: c01Classify(p), Case: p, Got: o.b, Want: o.a})
 		}
 	}
 	if parseBad > 0 {
@@ -284,6 +312,8 @@ func runC01(c *vh.Ctx) {
 	if only := os.Getenv("C01_ONLY"); only == "" || only == "ends" {
 		c01Ends(c)
 	}
+
+	c01FlushFails(c)
 
 	// correspondence with the Lean model
 	if c.HasLean() {
